@@ -93,7 +93,7 @@ def namespace():
     if MOD not in sys.modules:
         m = types.ModuleType(MOD)
         sys.modules[MOD] = m
-        exec(compile(SRC, f"/verif/out/generated/{MOD}.py", "exec"), m.__dict__)
+        exec(compile(SRC, f"/verif/out/generated/{MOD}.py", "exec", dont_inherit=True), m.__dict__)
     return sys.modules[MOD]
 
 
@@ -131,7 +131,7 @@ def apply(ctor, inner_src, ns):
                        f"    c: tuple[{inner_src}, {inner_src}]\n")
             else:
                 src = f"@dataclasses.dataclass\nclass {name}:\n    a: tuple[{inner_src}, ...]\n    b: tuple[int, ...]\n    c: tuple[{inner_src}, ...]\n"
-            exec(compile(src, f"/verif/out/generated/{MOD}_{name}.py", "exec"), ns.__dict__)
+            exec(compile(src, f"/verif/out/generated/{MOD}_{name}.py", "exec", dont_inherit=True), ns.__dict__)
             obj = getattr(ns, name)
             obj.__module__ = MOD
             typing.get_type_hints(obj)
